@@ -303,7 +303,7 @@ func (c *c08ctx) checkTokenString(kinds []string, acc int, idx int64, sub int) {
 			ts := lexTokens(kinds, "rand", rng)
 			s := joinToks(ts, rng.Intn(3), rng)
 			c.checkString(s, 1, ts, "rand", rng)
-			if v == 0 {
+			if v == 0 && len(s) <= 256 { // Pub/Sub documents a 256 byte limit for filters
 				c.selAcc.offer(synPick{prio: prio, kinds: kinds, acc: 1, s: s, mode: "rand"})
 			}
 		}
